@@ -17,6 +17,12 @@ Oracle: linearisability search of the recorded history (responses, callbacks, fi
 real-time order) against a simple reference map written from the property text; exceptions; deadlock; id uniqueness;
 responses are values (deep copies taken at delivery must still equal the delivered objects at the end); a filtered
 request returns only objects satisfying its filter.
+"No operation deadlocks" incl. the notification callback, which is USER code: scenarios with `"callback": "mutex"` (every
+callback takes an application mutex; `["app", [ops]]` = the thread issues `ops` while it holds that mutex - the Lean
+`sysApp` / driver `app{ … }`) and `"callback": "handover"` (the callback signals a worker thread and waits until the
+worker's IF.LDM.4 request has been served; `["await", sem]` / `["signal", sem]`); the scheduler reports the wait-for
+cycle as a deadlock.  Tie: `userCalls` of Generated/LdmShape.lean (`callbacks_outside_locks`) and the call chain down to
+`process_notifications` (`notification_chain_unlocked`); theorem `ldm_no_deadlock` over all `sysApp` thread lists.
 """
 from __future__ import annotations
 
@@ -63,6 +69,9 @@ ASSUMPTIONS = [
     "application takes effect after it; two overlapping deregistrations are both acknowledged; an attendance pass may "
     "notify a consumer that deregistered between its registration check and its search)",
     "objects are placed outside the LDM's area of maintenance (area collection = known finding C12-KF1)",
+    "notification callbacks are user code: what they may wait for is modelled by ONE application mutex (held by other "
+    "threads around their LDM calls) resp. a hand-over to one worker thread; the application itself does not run an "
+    "attendance pass inside that mutex (Lean `AppOk`); a callback that re-enters the LDM on its own thread is not modelled",
 ]
 
 T0 = 1_700_000_000_000
@@ -117,6 +126,43 @@ class _FakeTime:
 
     def time(self):
         return T0 / 1000.0
+
+
+class SSem:
+    """scheduler-aware counting semaphore of the APPLICATION (hand-over between a notification callback and its worker)"""
+
+    def __init__(self, name):
+        self.n, self.name = 0, name
+
+    def _free_for(self, ts):
+        return self.n > 0
+
+    def signal(self):
+        self.n += 1
+        s = dsched._active
+        if s is not None and s.me() is not None:
+            s.yield_point("rel")
+
+    def wait(self):
+        s = dsched._active
+        s.yield_point("acq")
+        while self.n <= 0:
+            s.block_on(self)
+        self.n -= 1
+
+
+PSEUDO = ("app", "await", "signal")
+
+
+def flat_ops(ops):
+    """the LDM operations of a thread's list (`["app", [ops]]` unwrapped, application pseudo-operations dropped)"""
+    out = []
+    for op in ops:
+        if op[0] == "app":
+            out += flat_ops(op[1])
+        elif op[0] not in PSEUDO:
+            out.append(op)
+    return out
 
 
 # ------------------------------------------------------------------------------------------------ reference map
@@ -451,9 +497,15 @@ class Run:
                         m = mnt_mod.LDMMaintenance(area, self.db)
                         s = svc_mod.LDMService(m)
                     self.m, self.svc = m, s
+                    for obj in (self.db, m, s):          # deterministic lock names (deadlock reports)
+                        for attr, v in vars(obj).items():
+                            if isinstance(v, dsched.SLock):
+                                v.name = f"{type(obj).__name__}.{attr}"
                     self.i3, self.i4 = if3_mod.InterfaceLDM3(s), if4_mod.InterfaceLDM4(s)
                     self.now_its = K.TimestampIts.initialize_with_utc_timestamp_seconds(T0 // 1000).timestamp_its
                     self.sub_ids = {}
+                    self.app_mutex = dsched.SLock(False, name="application mutex")
+                    self.sems = {"go": SSem("application semaphore go"), "done": SSem("application semaphore done")}
                     self.history = []
                     self.live = []          # (label, objects handed out in a response / notification, deep copies taken then)
                     sched = dsched.DSched(policy, line_files=FILES, opcode_codes=opcode_codes(), max_steps=max_steps)
@@ -514,6 +566,18 @@ class Run:
 
     def _callback(self, sid):
         def cb(resp):
+            # user code: it may wait for the application - a mutex the application holds around its own LDM calls, or
+            # a worker thread it hands the notification to and whose IF.LDM.4 request it waits for
+            mode = self.sc.get("callback")
+            if mode == "mutex":
+                with self.app_mutex:
+                    return deliver(resp)
+            if mode == "handover":
+                self.sems["go"].signal()
+                self.sems["done"].wait()
+            return deliver(resp)
+
+        def deliver(resp):
             rows = tuple(val(d) for d in resp.data_objects)
             self.live.append((f"notification of subscription {sid}", list(resp.data_objects), copy.deepcopy(list(resp.data_objects))))
             me = self.s.me()
@@ -524,9 +588,20 @@ class Run:
         return cb
 
     def _body(self, ti, ops):
-        def body():
+        def seq(ops):
             for op in ops:
-                self._do(op, ti)
+                if op[0] == "app":            # the application issues these calls while it holds its mutex
+                    with self.app_mutex:
+                        seq(op[1])
+                elif op[0] == "await":
+                    self.sems[op[1]].wait()
+                elif op[0] == "signal":
+                    self.sems[op[1]].signal()
+                else:
+                    self._do(op, ti)
+
+        def body():
+            seq(ops)
         return body
 
     def _do(self, op, ti):
@@ -670,7 +745,8 @@ class Run:
         sc, s = self.sc, self.s
         bad = []
         if s.abort_reason == "deadlock":
-            bad.append(f"deadlock: {s.deadlock}")
+            bad.append("deadlock: " + ", ".join(f"{t} waits for {l}" for t, l in s.deadlock) + " - no thread can move (a "
+                       "notification callback that waits for the application while an LDM lock is held, or a lock-order cycle)")
         elif s.abort_reason:
             raise Infra(f"scheduler aborted: {s.abort_reason}")
         for t in s.threads:
@@ -708,11 +784,13 @@ def model_line(sc, passes=None):
     """`passes`: ids of the time-triggered passes (reactive variants) that actually ran in the observed executions –
     whether `monotonic() - last >= interval` holds is a race of its own, outside the block model"""
     variant = sc.get("variant", "plain")
-    nsub = sum(1 for th in [sc.get("setup", [])] + sc["threads"] for op in th if op[0] == "sub")
-    nrow = sum(1 for th in [sc.get("setup", [])] + sc["threads"] for op in th if op[0] == "add") + 1
+    nsub = sum(1 for th in [sc.get("setup", [])] + sc["threads"] for op in flat_ops(th) if op[0] == "sub")
+    nrow = sum(1 for th in [sc.get("setup", [])] + sc["threads"] for op in flat_ops(th) if op[0] == "add") + 1
 
     def tok(op, dereg_n):
         k = op[0]
+        if k == "app":
+            return ["app{"] + [t for o in op[1] for t in tok(o, dereg_n)] + ["}"]
         if k in ("regP", "regC"):
             return [f"{k}:{op[1]}"]
         if k == "deregP":
@@ -799,6 +877,19 @@ def scenarios(ctx):
     S.append({"name": "unsub-unsub", "setup": P + [["sub", 1, 1, 101]], "threads": [[["unsub", 2, 1, 101]], [["unsub", 3, 1, 101]]]})
     S.append({"name": "dereg-dereg", "needs": ["dereg_drops_subs"], "setup": P + [["sub", 1, 1, 101]],
               "threads": [[["deregP", 2, 1], ["deregC", 3, 1]], [["deregP", 4, 1]], [["deregC", 5, 1]]]})
+    # the notification callback is USER code that may wait for the application, which may itself be calling the LDM
+    # ("no operation deadlocks"): (a) every callback takes an application mutex that another thread holds around its own
+    # IF.LDM.3 / IF.LDM.4 calls; (b) the callback hands over to a worker thread and waits until the worker's request has
+    # been served; (c) the same through the reactive service (the pass runs inside add_provider_data)
+    S.append({"name": "cb-app-mutex", "callback": "mutex", "needs": ["dereg_drops_subs", "attend_checks_first"], "cap": 60, "pct": 10,
+              "setup": P + [["sub", 1, 1, 101], ["add", 2, 1, 4]],
+              "threads": [[["attend", 5]], [["app", [["qry", 6, 1], ["add", 7, 1, 6]]]]]})
+    S.append({"name": "cb-handover", "callback": "handover", "nomodel": True, "needs": ["dereg_drops_subs", "attend_checks_first"],
+              "cap": 25, "pct": 5, "setup": P + [["sub", 1, 1, 101], ["add", 2, 1, 4]],
+              "threads": [[["attend", 5], ["signal", "go"]], [["await", "go"], ["qry", 6, 1], ["signal", "done"]]]})
+    S.append({"name": "cb-app-mutex-reactive", "variant": "reactive", "callback": "mutex", "cap": 40, "pct": 5,
+              "needs": ["dereg_drops_subs", "attend_checks_first"], "setup": P + [["sub", 1, 1, 101]],
+              "threads": [[["add", 2, 1, 4]], [["app", [["qry", 3, 1]]], ["app", [["unsub", 4, 1, 101]]]]]})
     for g in range(ctx.scale(3, 40)):
         S.append(gen_scenario(ctx.rng, g, ctx.thorough))
     if ctx.thorough:
@@ -815,7 +906,8 @@ def gen_scenario(rng, idx, thorough):
     """a random scenario over the whole operation alphabet: 2-3 (thorough: 2-4) threads, 1-2 (1-4) calls each, any of
     the three variants; two objects, one provider, one consumer and one subscription may exist beforehand.  Operation
     ids are unique (1..9), object ids / application ids / subscription ids are drawn from a small pool so that
-    operations collide on purpose."""
+    operations collide on purpose.  Some scenarios run their callbacks and part of their threads under the application
+    mutex (see the end of the function)."""
     variant = rng.choice(["plain", "plain", "reactive", "thread"])
     setup, nobj, sids = [], 0, []
     if rng.random() < 0.85:
@@ -879,7 +971,15 @@ def gen_scenario(rng, idx, thorough):
         needs.add("delete_by_id")
     if kinds & {"deregC", "attend", "sub"} or variant == "reactive":
         needs |= {"dereg_drops_subs", "attend_checks_first"}
-    return {"name": f"gen#{idx}", "variant": variant, "generated": True, "needs": sorted(needs), "setup": setup, "threads": threads}
+    sc = {"name": f"gen#{idx}", "variant": variant, "generated": True, "needs": sorted(needs), "setup": setup, "threads": threads}
+    # user code: in 60 % of the scenarios with a subscription and an attendance pass every notification callback takes the application
+    # mutex, and threads that run no attendance pass themselves (the application's own obligation, Lean `AppOk`; with
+    # the reactive service an add runs one) may issue their calls while holding it
+    if "sub" in kinds and ("attend" in kinds or (variant == "reactive" and "add" in kinds)) and rng.random() < 0.6:
+        sc["callback"] = "mutex"
+        inner = {"attend"} | ({"add"} if variant == "reactive" else set())
+        sc["threads"] = [[["app", th]] if not ({op[0] for op in th} & inner) and rng.random() < 0.6 else th for th in threads]
+    return sc
 
 
 def classify(sc, bad, run=None):
@@ -956,11 +1056,12 @@ def explore(ctx, sc, bound, cap, n_pct, observed, model=True):
 
     def handle(run):
         ctx.evals()
-        out = run.outcome() if not (sc.get("db_only") or sc.get("nomodel")) else None
+        # (an aborted run - deadlock - has operations without a response: no outcome string, the oracle reports it)
+        out = run.outcome() if not (sc.get("db_only") or sc.get("nomodel") or run.s.abort_reason) else None
         bad = run.judge(VARIANT)
         ctx.cover("runs_" + sc["name"].split("#")[0])
         ctx.cover("preemptions_%d" % min(dsched.preemptions(run.steps), 4))
-        ctx.nontrivial((sc["name"], out, tuple((tuple(r["op"]), r["resp"]) for r in run.history)))
+        ctx.nontrivial((sc["name"], out, tuple((tuple(r["op"]), r.get("resp")) for r in run.history)))
         if bad:
             state["found"] += 1
             if state["found"] == 1:
@@ -1002,6 +1103,9 @@ def check_model(ctx, batches):
         if res == "bad-op":
             raise Infra(f"driver rejected {line}")
         allowed = set(res.split("|"))
+        if "DEADLOCK" in allowed:       # excluded by `ldm_no_deadlock` for every scenario that satisfies `AppOk`
+            ctx.mismatch("conc-ldm:" + sc["name"], {"scenario": sc, "passes": list(passes)}, "no deadlock observed",
+                         "the block model reaches a deadlock")
         ctx.cover("model_outcomes", len(allowed))
         ctx.cover("observed_outcomes", len(observed))
         for out, choices in observed.items():
@@ -1045,6 +1149,8 @@ def run(ctx):
         observed = {}
         if sc.get("generated"):
             explore(ctx, sc, bound, gcap, gpct, observed)
+        elif "cap" in sc and not ctx.thorough:
+            explore(ctx, sc, bound, sc["cap"], sc.get("pct", n_pct), observed)
         else:
             explore(ctx, sc, bound, cap, n_pct, observed)
         if not (sc.get("db_only") or sc.get("nomodel")):
@@ -1072,7 +1178,7 @@ def replay(ctx, obj):
     bad = r.judge(VARIANT)
     print(f"scenario {case['scenario'].get('name')} schedule of {len(case.get('schedule', []))} choices:")
     for rec in r.history:
-        print("   ", rec["op"], "->", rec["resp"])
+        print("   ", rec["op"], "->", rec.get("resp", "<no response: the operation never returned>"))
     print("    final store", r.final_key()[0])
     for b in bad:
         print("  violated:", b[:500])
